@@ -1,6 +1,6 @@
 (* T02 / corners where the implementation (model M1, tied to the Go code by the correspondence runs) differs from the
    reference filesystem of T02Ns.v, each as a compiled example; the theorems of T02Spec.v carry the hypothesis that
-   excludes the corner.  Each example runs the call on a state reached by filesystem calls from Initialize "/",
+   excludes the corner.  ((1) is a former corner that the repaired flush header removed, kept as a positive example.)  Each example runs the call on a state reached by filesystem calls from Initialize "/",
    and compares the live entries after the call with the reference result ([ns_eqb], [outc_eqb]). *)
 From Coq Require Import String List NArith ZArith Bool.
 Import ListNotations.
@@ -15,36 +15,60 @@ Definition result_of (c : cfg) (h : list (call * env)) (k : call) (now : Z) (n :
 
 Definition hroot : list (call * env) := [(CInitialize (s "/"), e0 1)].
 
-(* (1) CreateFile with content by a process that is not uid 0 / gid 0 / "" / "": the entry ends up owned by
-       0:0 with empty owner names (the header written when the handle is flushed comes from fs.FileInfo,
-       which carries no owner), where the reference keeps the creator as the owner. *)
-Example create_with_content_resets_owner :
-  agrees tcfg hroot (CCreateFile (s "/f") [(1, 0, 10)]) 5 = false /\
+(* (1) NOT a corner any more (it was: create_with_content_resets_owner, with the flush resetting the owner to 0:0):
+       CreateFile with content by a process that is not uid 0 / gid 0 / "" / "".  The header written when the handle is
+       flushed keeps owner, group and access / change time of the entry as it was when the handle was opened
+       (Fs.flush_hdr), so the new file is owned by the creating process, as in the reference; its access and change
+       time are 0, those of the header mknode wrote.  No theorem of T02Spec.v has a hypothesis on the identity. *)
+Example create_with_content_keeps_owner :
+  agrees tcfg hroot (CCreateFile (s "/f") [(1, 0, 10)]) 5 = true /\
   option_map (fun v => (n_uid v, n_gid v, n_uname v, n_gname v)) (result_of tcfg hroot (CCreateFile (s "/f") [(1, 0, 10)]) 5 (s "/f"))
-    = Some (0, 0, [], []) /\
-  (c_uid tcfg, c_gid tcfg) = (7, 8).
+    = Some (c_uid tcfg, c_gid tcfg, c_uname tcfg, c_gname tcfg) /\
+  (c_uid tcfg, c_gid tcfg, c_uname tcfg, c_gname tcfg) = (7, 8, s "u", s "g") /\
+  option_map (fun v => (n_size v, n_mtime v, n_atime v, n_ctime v)) (result_of tcfg hroot (CCreateFile (s "/f") [(1, 0, 10)]) 5 (s "/f"))
+    = Some (10, 5%Z, 0%Z, 0%Z).
 Proof. vm_compute. repeat split; reflexivity. Qed.
 (* the same call agrees with the reference when nothing is written (the entry keeps the header of mknode) ... *)
 Example create_empty_agrees : agrees tcfg hroot (CCreateFile (s "/f") []) 5 = true.
 Proof. vm_compute. reflexivity. Qed.
-(* ... and when the process identity is 0 / 0 / "" / "" *)
+(* ... and for the process identity 0 / 0 / "" / "" *)
 Example create_with_content_agrees_for_root_identity : agrees rcfg hroot (CCreateFile (s "/f") [(1, 0, 10)]) 5 = true.
 Proof. vm_compute. reflexivity. Qed.
 
-(* (2) CreateFile on an EXISTING regular file: the reference truncates, writes, and stamps the modification time;
-       the implementation keeps the old modification time (the handle flushes the mtime it read at open), and resets
-       owner and access time as in (1). *)
+(* (2) CreateFile on an EXISTING regular file: the reference truncates, writes, keeps owner / group / access time and
+       stamps the modification time; the implementation does the same except that it keeps the old modification time
+       (the handle flushes the mtime it read at open).  Here the file was created by 7:8, then given to 3:4 and the
+       times 8 / 9: after CreateFile at time 50 the entry has the new size, the owner 3:4, access time 8 - and still
+       modification time 9, where the reference has 50.  ([T02_create_file_existing], [.._reference] in T02Spec.v.) *)
 Definition hfile : list (call * env) :=
   hroot ++ [(CCreateFile (s "/f") [(1, 0, 10)], e0 2); (CChown (s "/f") 3 4, e0 3); (CChtimes (s "/f") 8%Z 9%Z, e0 4)].
+Definition cols (v : node) := (n_size v, n_mtime v, n_atime v, n_ctime v, n_uid v, n_gid v, n_uname v, n_gname v).
 Example create_existing_keeps_mtime :
+  agrees tcfg hfile (CCreateFile (s "/f") [(2, 0, 20)]) 50 = false /\
+  option_map cols (result_of tcfg hfile (CCreateFile (s "/f") [(2, 0, 20)]) 50 (s "/f"))
+    = Some (20, 9%Z, 8%Z, 0%Z, 3, 4, s "u", s "g") /\
+  option_map cols (lookup (fst (spec_create_file tcfg (abs (final tcfg init_sys hfile)) (s "/f") 20 50 (0, 0))) (s "/f"))
+    = Some (20, 50%Z, 8%Z, 0%Z, 3, 4, s "u", s "g") /\
+  (* the same for the identity 0/0/""/"" *)
   agrees rcfg hfile (CCreateFile (s "/f") [(2, 0, 20)]) 50 = false /\
-  option_map (fun v => (n_size v, n_mtime v, n_atime v, n_uid v, n_gid v)) (result_of rcfg hfile (CCreateFile (s "/f") [(2, 0, 20)]) 50 (s "/f"))
-    = Some (20, 9%Z, 0%Z, 0, 0).
+  option_map cols (result_of rcfg hfile (CCreateFile (s "/f") [(2, 0, 20)]) 50 (s "/f"))
+    = Some (20, 9%Z, 8%Z, 0%Z, 3, 4, [], []).
 Proof. vm_compute. repeat split; reflexivity. Qed.
+(* the modification time is the ONLY difference: with the old modification time put back, the reference's result is
+   the implementation's *)
+Example create_existing_differs_in_mtime_only :
+  let st := final tcfg init_sys hfile in
+  let st' := fst (step tcfg (with_env st (e0 50)) (CCreateFile (s "/f") [(2, 0, 20)])) in
+  let cid := match lookup (abs st') (s "/f") with Some v => n_cid v | None => (0, 0) end in
+  ns_eqb (abs st') (ns_upd (fst (spec_create_file tcfg (abs st) (s "/f") 20 50 cid)) (s "/f") (with_times 8 9)) = true.
+Proof. vm_compute. reflexivity. Qed.
 (* an existing EMPTY file and nothing to write: the implementation does nothing at all (no record is written),
    the reference stamps the modification time *)
 Definition hempty : list (call * env) := hroot ++ [(CCreateFile (s "/g") [], e0 2)].
 Example create_existing_empty_is_noop :
+  agrees tcfg hempty (CCreateFile (s "/g") []) 50 = false /\
+  option_map n_mtime (result_of tcfg hempty (CCreateFile (s "/g") []) 50 (s "/g")) = Some 2%Z /\
+  tp (fst (step tcfg (with_env (final tcfg init_sys hempty) (e0 50)) (CCreateFile (s "/g") []))) = tp (final tcfg init_sys hempty) /\
   agrees rcfg hempty (CCreateFile (s "/g") []) 50 = false /\
   option_map n_mtime (result_of rcfg hempty (CCreateFile (s "/g") []) 50 (s "/g")) = Some 2%Z.
 Proof. vm_compute. repeat split; reflexivity. Qed.
